@@ -181,7 +181,13 @@ impl Actor for LogActor {
 
 /// The message value that the actors' serializer refuses (the harness peers can still send it).
 pub const UNSERIALIZABLE: u32 = 13;
+/// The message value whose serialized form is the empty byte string (as a unit message has under
+/// a compact binary codec): a zero-length datagram is still a datagram.
+pub const EMPTY_ON_THE_WIRE: u32 = 17;
 fn ser_raw(m: &Wire) -> Result<Vec<u8>, serde_json::Error> {
+    if matches!(m, Wire::Data(v) if *v == EMPTY_ON_THE_WIRE) {
+        return Ok(vec![]);
+    }
     serde_json::to_vec(m)
 }
 /// the serializer handed to `spawn`
@@ -189,9 +195,12 @@ fn ser(m: &Wire) -> Result<Vec<u8>, serde_json::Error> {
     if matches!(m, Wire::Data(v) if *v == UNSERIALIZABLE) {
         return Err(<serde_json::Error as serde::ser::Error>::custom("this message cannot be serialized"));
     }
-    serde_json::to_vec(m)
+    ser_raw(m)
 }
 fn de(b: &[u8]) -> Result<Wire, serde_json::Error> {
+    if b.is_empty() {
+        return Ok(Wire::Data(EMPTY_ON_THE_WIRE));
+    }
     serde_json::from_slice(b)
 }
 
@@ -473,7 +482,7 @@ impl SubCheck for Runtime {
                 let total = n + peers;
                 let cmd = move || {
                     prop_oneof![
-                        4 => (0..total, prop_oneof![9 => 0u32..50, 1 => Just(UNSERIALIZABLE)]).prop_map(|(to, v)| SCmd::Send(to, v)),
+                        4 => (0..total, prop_oneof![9 => 0u32..50, 1 => Just(UNSERIALIZABLE), 1 => Just(EMPTY_ON_THE_WIRE)]).prop_map(|(to, v)| SCmd::Send(to, v)),
                         3 => (0u8..2, 5u64..40, 0u64..20).prop_map(|(t, lo, d)| SCmd::SetTimer(t, lo, lo + d)),
                         2 => (0u8..2).prop_map(SCmd::CancelTimer),
                         2 => (10u64..60).prop_map(SCmd::Stall),
@@ -548,6 +557,7 @@ impl SubCheck for Runtime {
         cov.label_if(timeouts > 0, "timer_fired");
         cov.label_if(actor_to_actor, "actor_to_actor_message");
         cov.label_if(cancels, "cancel_timer");
+        cov.label_if(r.log.iter().any(|e| e.cmds.iter().any(|c| matches!(c, SCmd::Send(_, v) if *v == EMPTY_ON_THE_WIRE))), "send_of_a_message_that_is_empty_on_the_wire");
         cov.label_if(r.log.iter().any(|e| e.cmds.iter().position(|c| matches!(c, SCmd::Send(_, v) if *v == UNSERIALIZABLE)).map_or(false, |i| i + 1 < e.cmds.len())), "unserializable_send_followed_by_other_commands");
         cov.label_if(r.log.iter().any(|e| e.cmds.iter().any(|c| matches!(c, SCmd::Stall(_)))), "slow_handler");
         // a handler that cancels or re-arms a timer whose deadline had already passed when it ran
@@ -565,7 +575,7 @@ impl SubCheck for Runtime {
         Ok(())
     }
     fn mandatory(&self) -> Vec<&'static str> {
-        vec!["timer_fired", "actor_to_actor_message", "cancel_timer", "re_arm", "garbage_datagram", "send_to_harness_peer", "large_datagram_handled(>8KiB)", "slow_handler", "cancel_or_rearm_of_an_overdue_timer", "unserializable_send_followed_by_other_commands"]
+        vec!["timer_fired", "actor_to_actor_message", "cancel_timer", "re_arm", "garbage_datagram", "send_to_harness_peer", "large_datagram_handled(>8KiB)", "slow_handler", "cancel_or_rearm_of_an_overdue_timer", "unserializable_send_followed_by_other_commands", "send_of_a_message_that_is_empty_on_the_wire"]
     }
 }
 
